@@ -399,6 +399,12 @@ const spinAfter = 8
 type overrun struct{}
 
 //go:norace
+// GrantSteps raises the step budget by n from now on. After an overrun (the flag stays set
+// and the run is judged by it) a scenario uses it to shut its nodes down in an orderly way,
+// so that their goroutines do not stay blocked - and their memory pinned - for the rest of
+// the worker process.
+func (s *Sim) GrantSteps(n int64) { s.cfg.MaxSteps = s.Steps + n }
+
 func (s *Sim) maxSteps() int64 {
 	if s.cfg.MaxSteps > 0 {
 		return s.cfg.MaxSteps
